@@ -13,6 +13,12 @@ Want(d, v) == IF d[v] >= INF THEN -1 ELSE d[v]
 
 DijkstraAllOK(g, v) == \A s \in Nodes(g) : LET d == Dist(g, s) IN \A x \in Nodes(g) : v[s + 1][x + 1] = Want(d, x)
 
+\* through NodeFiltered (even nodes kept): the node-induced subgraph; hidden nodes are never reached
+NFeven(g) == [g EXCEPT !.E = SelectSeq(g.E, LAMBDA e : e[1] % 2 = 0 /\ e[2] % 2 = 0)]
+DijkstraNfOK(g, v) == LET h == NFeven(g) IN
+    \A s \in Nodes(g) : IF s % 2 = 0 THEN LET d == Dist(h, s) IN \A x \in Nodes(g) : v[s + 1][x + 1] = Want(d, x)
+                         ELSE v[s + 1] = <<-2>>
+
 \* with a goal: the goal entry is exact (absent iff unreachable); every other entry present is an
 \* upper bound; nodes strictly closer than the goal have an exact entry
 DijkstraGoalOK(g, c) ==
@@ -81,6 +87,7 @@ Bad(r) ==
         chk(f, P(_)) == IF Has(r, f) /\ ~(Ok(r[f]) /\ P(r[f][2])) THEN {f} ELSE {}
     IN
     chk("dj", LAMBDA v : DijkstraAllOK(g, v))
+    \cup chk("dj_nf", LAMBDA v : DijkstraNfOK(g, v))
     \cup chk("djg", LAMBDA v : \A j \in DOMAIN v : DijkstraGoalOK(g, v[j]))
     \cup chk("astar", LAMBDA v : \A j \in DOMAIN v : AstarOK(g, v[j]))
     \cup chk("ksp", LAMBDA v : /\ \A j \in DOMAIN v : (v[j].k = 1 => DijkstraAllOK(g, v[j].d))
